@@ -20,7 +20,11 @@
       PyErr::new::<ValueError,_> and constructs no other exception; the module
       initialiser exports it under the name "apply" as module `jsonlogic`;
   K3  setup.py builds the extension `jsonlogic_rs.jsonlogic` with feature `python`.
-Panic-freedom of the binding (no SystemError / abort) is C01 under the python config.
+      the binding and the Display/Debug impls that render the library's error
+      (followed through format arguments) contain no panic source;
+  K4  Cargo manifest: enabling feature `python` changes the resolved feature set
+      of no package the library itself is built from (cargo's resolver).
+Panic-freedom of the library below the binding is C01 under the python config.
 Not decided: json.dumps/json.loads round-trips of Python objects (library behaviour).
 """
 import ast, os, re
@@ -354,6 +358,46 @@ def check_native(ctx):
                       "panic source in the binding (%s): the Python caller would get SystemError or an abort instead of ValueError" % sx.what, where=b.where(sx.bi), fn=b.key, nontrivial=True)
     if n == 0:
         ctx.ok("K2.no-panic", "no panic source in the user-written binding functions", nontrivial=True)
+    # rendering the error is part of the binding's job: the Display/Debug impls of the crate's own types that
+    # the message is built from (followed through format arguments) must not be able to panic either
+    fmt_impls = {}
+    for k, it_ in facts.items.items():
+        ins = it_.get("inputs") or []
+        if k.endswith("::fmt") and len(ins) == 2 and ins[1].startswith("&mut std::fmt::Formatter"):
+            fmt_impls.setdefault(ins[0].lstrip("&"), []).append(k)
+
+    def shown_types(b):
+        out = set()
+        for bi, t in b.calls():
+            c = callee_of(t)
+            if c and re.search(r"Argument::<'_>::new_(display|debug)$", c["path"]):
+                for ta in t["callee"].get("targs", []):
+                    out.add(ta.lstrip("&"))
+        return out
+
+    cgl, _ = facts.callgraph()
+    todo = [k for b in py for ty in shown_types(b) for k in fmt_impls.get(ty, [])]
+    seen = set()
+    while todo:
+        k = todo.pop()
+        if k in seen or facts.body(k) is None:
+            continue
+        seen.add(k)
+        bb = facts.body(k)
+        todo.extend(x for x in cgl.get(k, ()) if x != roles.entry.key)
+        todo.extend(x for ty in shown_types(bb) for x in fmt_impls.get(ty, []))
+    ctx.floor("error-rendering functions reachable from the binding", len(seen), 2)
+    nr = 0
+    for k in sorted(seen):
+        bb = facts.body(k)
+        srcs, unknown = PN.sources_of(api, bb)
+        for sx in srcs:
+            nr += 1
+            j = PN.justify(facts, roles, arity, sx, {})
+            ctx.check(j is not None, "K2.error-rendering-no-panic", "%s|%s" % (bb.key.split("::", 1)[1], sx.what),
+                      "panic source (%s%s) in the rendering of the library's error: for some library errors the Python caller gets SystemError or an abort instead of ValueError" % (sx.what, (" — " + sx.reason) if sx.reason else ""), where=bb.where(sx.bi), fn=bb.key, nontrivial=True)
+    if nr == 0:
+        ctx.ok("K2.error-rendering-no-panic", "no panic source in the %d functions that render the library's error for Python" % len(seen), nontrivial=True)
     # module initialiser: exports "apply", references the wrapper
     names = set()
     refs = set()
@@ -408,3 +452,10 @@ def run(ctx):
     check_python(ctx)
     check_native(ctx)
     check_setup(ctx)
+    from . import manifest as MF
+    for feat in (("python",) if ctx.tier == "quick" else ("python", "wasm")):
+        changes, npk = MF.library_config_changes(feat)
+        ctx.floor("packages of the library build compared (%s)" % feat, npk, 10)
+        ctx.check(not changes, "K4.same-library", "feature %s leaves every package of the library build configured as in the default build (%d packages, cargo's resolver)" % (feat, npk),
+                  "enabling feature %s reconfigures packages the library itself is built from: %s — the module no longer wraps the library other users get" % (feat, "; ".join("%s +%s -%s" % (p_, sorted(a), sorted(r_)) for p_, a, r_ in changes)),
+                  where="Cargo.toml", nontrivial=True)
